@@ -71,4 +71,25 @@ theorem reset_total (s : AverageTrueRange F) (h : WF s) :
   obtain ⟨r, e, w, p, _⟩ := reset_shape s h
   exact ⟨r, e, w, p⟩
 
+/-- `next` never panics on ANY state (no hypothesis), and afterwards the TrueRange remembers a previous
+    close (shape of the state only): what C18 needs, whose ATR statements carry no `WF` -/
+theorem next_some_shape (s : AverageTrueRange F) (x : F) :
+    ∃ r, s.next x = some r ∧ r.1.true_range.prev_close.isSome = true := by
+  obtain ⟨ft, ht⟩ := Classical.axiomOfChoice (fun y => TrueRange.next_total s.true_range y)
+  obtain ⟨fe, he⟩ := Classical.axiomOfChoice (fun y => ExponentialMovingAverage.next_some s.ema y)
+  unfold next
+  try simp only [gen_helper]
+  simp only [fun y => (ht y).1, fun y => he y, Option.bind_eq_bind, Option.bind_some, Option.pure_def]
+  exact ⟨_, rfl, (ht _).2⟩
+
+/-- the same on the bar path -/
+theorem nextBar_some_shape (s : AverageTrueRange F) (b : Bar F) :
+    ∃ r, s.nextBar b = some r ∧ r.1.true_range.prev_close.isSome = true := by
+  obtain ⟨ft, ht⟩ := Classical.axiomOfChoice (fun y => TrueRange.nextBar_total s.true_range y)
+  obtain ⟨fe, he⟩ := Classical.axiomOfChoice (fun y => ExponentialMovingAverage.next_some s.ema y)
+  unfold nextBar
+  try simp only [gen_helper]
+  simp only [fun y => (ht y).1, fun y => he y, Option.bind_eq_bind, Option.bind_some, Option.pure_def]
+  exact ⟨_, rfl, (ht _).2⟩
+
 end TaRs.Gen.AverageTrueRange
